@@ -142,3 +142,37 @@ Example C15_nonvacuous :
   (rmap (fun t : tensor N => match tdata t with DSingle v => map f_to_bits v | _ => [] end) (add_inplace a b),
    match add_inplace a c with Panic _ => true | Ok _ => false end) = (Ok [1050253722; 0]%Z, true).
 Proof. vm_compute. reflexivity. Qed.
+
+(* lists with optional entries (the per-layer bias gradients of a feedback block) *)
+Theorem C15_optional_lists_add_positionally :
+  forall (N : Num) (a b r : list (option (tensor N))),
+         add_inplace_nestedopt a b = Ok r ->
+         length a = length b /\
+         length r = length a /\
+         (forall i : nat,
+          nth_error r i =
+          match nth_error a i with
+          | Some (Some x0 as x) =>
+              match nth_error b i with
+              | Some (Some y) => match add_inplace x0 y with
+                                 | Ok z => Some (Some z)
+                                 | Panic _ => None
+                                 end
+              | Some None => Some x
+              | None => None
+              end
+          | Some (None as x) => match nth_error b i with
+                                | Some _ => Some x
+                                | None => None
+                                end
+          | None => None
+          end).
+Proof. exact @nestedopt_add_spec. Qed.
+Print Assumptions C15_optional_lists_add_positionally.
+
+Theorem C15_optional_lists_length_mismatch_refused :
+  forall (N : Num) (a b : list (option (tensor N))),
+         length a <> length b -> exists c : nat, add_inplace_nestedopt a b = Panic c.
+Proof. exact @nestedopt_add_refuses_length_mismatch. Qed.
+Print Assumptions C15_optional_lists_length_mismatch_refused.
+
